@@ -39,8 +39,10 @@ vars == <<phase, req, reply, result>>
 (* api: KSI_Signature_signAggregated / KSI_createSignature over the blocking TCP client, the async service, signAggregated over the HTTP client *)
 (* asyncReuse: the asynchronous handle has already carried another request, answered honestly, before it is submitted again for this one -- *)
 (* nothing of the earlier exchange (in particular its response) may decide this one                                                       *)
-SignReqs == {[kind |-> "sign", alg |-> a, level |-> l, api |-> p] : a \in {"sha256", "sha512", "sha1"}, l \in {0, 3, 250}, p \in {"aggregated", "create", "async", "asyncReuse", "http"}}
-            \ {x \in [kind : {"sign"}, alg : {"sha256", "sha512", "sha1"}, level : {3, 250}, api : {"create", "asyncReuse"}] : TRUE}
+SignReqs == ({[kind |-> "sign", alg |-> a, level |-> l, api |-> p] : a \in {"sha256", "sha512", "sha1"}, l \in {0, 3, 250}, p \in {"aggregated", "create", "async", "asyncReuse", "http"}}
+            \ {x \in [kind : {"sign"}, alg : {"sha256", "sha512", "sha1"}, level : {3, 250}, api : {"create", "asyncReuse"}] : TRUE})
+            \* ha: the high-availability signing service (two endpoints): EVERY endpoint gets the caller's hash and level; each endpoint answers with the reply at hand
+            \cup {[kind |-> "sign", alg |-> "sha256", level |-> l, api |-> "ha"] : l \in {0, 3}}
 (* targets: none (head), the signature's old publication time, the aggregation time itself, later, earlier, a supplied publication record *)
 (* pubrecBad: a supplied publication record with the requested time but a hash that is not the calendar root at that time *)
 Targets == {"head", "equal", "ataggr", "later", "earlier", "pubrec", "pubrecBad"}
